@@ -18,4 +18,5 @@ let lookup (p : string) : Model.val0 -> Model.val0 =
   | "C06" -> Model.run_C06
   | "C04" -> Model.run_C04
   | "C09" -> Model.run_C09
+  | "C03" -> Model.run_C03
   | _ -> failwith ("unknown property " ^ p)
